@@ -306,19 +306,51 @@ def roundtrip_cases(tier):
                 yield (where, version, v)
 
 
+ODD_KEYS = [1, 2.5, False, None, "b", "1"]
+
+
+def jkey(k):
+    return k if isinstance(k, str) else {True: "true", False: "false", None: "null"}.get(k) if isinstance(k, bool) or k is None else repr(k)
+
+
+def oddkey_cases(tier):
+    # dictionaries whose keys are JSON-representable non-strings, alone and mixed with strings and with each other (JSON normalisation: keys become strings)
+    for n in (1, 2, 3):
+        for ks in itertools.combinations(ODD_KEYS, n):
+            if 1 in ks and "1" in ks:
+                continue  # both normalise to "1"
+            for nest in (0, 1):
+                d = {k: i for i, k in enumerate(ks)}
+                w = {jkey(k): i for i, k in enumerate(ks)}
+                if nest:
+                    d, w = {"outer": [d]}, {"outer": [w]}
+                for where in ("params-list", "params-dict", "result", "fault-data"):
+                    for version in (1.0, 2.0):
+                        yield (where, version, (d, w))
+
+
 def check_roundtrip(case):
     where, version, v = case
     out = Out(cls=where)
+    vw = v
+    if isinstance(v, tuple) and len(v) == 2 and isinstance(v[0], dict) and isinstance(v[1], dict):
+        v, vw = v
     try:
+        if where == "fault-data":
+            text = J.Fault(-32000, "m", data=v).response(rpcid="r", version=version)
+            back = J.loads(text)
+            if not gen.same(back.get("error", {}).get("data"), vw) or back.get("id") != "r":
+                return out.bad("C14/roundtrip/differs", "loads(Fault(data=%r).response()) = %r" % (v, back))
+            return out
         if where == "params-list":
             text = J.dumps([v, v], "m", version=version, rpcid="i")
-            want = {"method": "m", "id": "i", "params": [v, v]}
+            want = {"method": "m", "id": "i", "params": [vw, vw]}
         elif where == "params-dict":
             text = J.dumps({"k": v, "é": v}, "m", version=version, rpcid=3)
-            want = {"method": "m", "id": 3, "params": {"k": v, "é": v}}
+            want = {"method": "m", "id": 3, "params": {"k": vw, "é": vw}}
         else:
             text = J.dumps(v, methodresponse=True, version=version, rpcid="r")
-            want = {"result": v, "id": "r"}
+            want = {"result": vw, "id": "r"}
             if version < 2:
                 want["error"] = None
         if version >= 2:
@@ -332,7 +364,7 @@ def check_roundtrip(case):
 
 
 def leg_roundtrip(part, tier, shard, nshards):
-    drive(part, "roundtrip", roundtrip_cases(tier), shard, nshards, check_roundtrip)
+    drive(part, "roundtrip", itertools.chain(roundtrip_cases(tier), oddkey_cases(tier)), shard, nshards, check_roundtrip)
     if shard == 0:
         r = J.loads("")
         part.case(nontrivial_key=("loads-empty",), cls="loads-empty", leg="roundtrip")
